@@ -622,6 +622,18 @@ fn run_shape(c: &ShapeCase) -> Outcome {
                     Ok(fr) if fr.len() == 1 && fr[0].body == body => {}
                     _ => o.push("C05:mutate:header-does-not-announce-the-body", format!("after `{name}` (n={})", c.n)),
                 }
+                // what is written parses back to an equal value (packet header included)
+                match parse_framed(&full) {
+                    Ok(pgp::packet::Packet::Signature(s3)) => {
+                        if s3 != sig {
+                            o.push(
+                                "C05:mutate:reimport-differs",
+                                format!("after `{name}` (n={}): parse(serialize(sig)) != sig; header in memory {:?}, header after re-import {:?}", c.n, pgp::packet::PacketTrait::packet_header(&sig), pgp::packet::PacketTrait::packet_header(&s3)),
+                            );
+                        }
+                    }
+                    _ => o.push("C05:mutate:mutated-signature-does-not-parse", format!("after `{name}` (framed)")),
+                }
                 match sigs::sig_from_body(&body) {
                     Ok(s2) => {
                         if s2.to_bytes().ok().as_deref() != Some(&body[..]) {
